@@ -63,7 +63,7 @@ BInit(c) ==
   /\ subs = {} /\ conn = <<>> /\ sess = <<>> /\ owed = <<>> /\ gowed = {}
   /\ ctl = <<>> /\ ret = <<>> /\ unack = <<>> /\ infl = <<>> /\ last = <<>>
   /\ ctr = [pub |-> 0, oid |-> 0]
-  /\ aux = [wills |-> <<>>, reg |-> <<>>, closedc |-> {}, srvended |-> {}]
+  /\ aux = [wills |-> <<>>, reg |-> <<>>, closedc |-> {}, srvended |-> {}, sockc |-> {}, nreg |-> 0]
 
 ----------------------------------------------------------------------------
 (* Sessions and connections                                                *)
@@ -89,6 +89,7 @@ Connect(k, cid, ver, clean, recvmax, expiry, lim, w, addr, ms) ==
                           dying |-> {},        \* reason codes of the DISCONNECT the broker owes before closing k
                           disc |-> FALSE,      \* that DISCONNECT has been read
                           will |-> w, addr |-> addr, t0 |-> ms, force |-> FALSE, resumed |-> FALSE,
+                          regseq |-> 0,        \* position in the order of registrations (0: not registered)
                           bye |-> [has |-> FALSE, code |-> 0, exp |-> 0 - 1]])
   /\ UNCHANGED <<cfg, subs, sess, owed, gowed, ctl, ret, unack, infl, last, ctr, aux>>
 
@@ -149,10 +150,10 @@ Attach(k, sp, ms, st) ==
       w1 == IF old # 0 /\ old # k THEN WillAtEnd(Wills, c, old, FALSE, conn[old].expiry, conn[k].t0) ELSE Wills
       w2 == IF sp THEN WillAtResume(w1, c, conn[k].t0, ms) ELSE WillAtSessionEnd(w1, c, conn[k].t0) IN
   /\ sp \in ResumeVerdicts(k, ms)
-  /\ conn' = [conn1 EXCEPT ![k].st = st, ![k].resumed = sp]
+  /\ conn' = [conn1 EXCEPT ![k].st = st, ![k].resumed = sp, ![k].regseq = aux.nreg + 1]
   /\ sess' = Put(sess, c, [online |-> k, ver |-> conn[k].ver, expireAt |-> 0])
   /\ ctl' = IF old # 0 /\ old # k THEN Put(ctl, old, {}) ELSE ctl
-  /\ aux' = [aux EXCEPT !.wills = w2]
+  /\ aux' = [aux EXCEPT !.wills = w2, !.nreg = @ + 1]
   /\ IF sp
        THEN /\ owed' = Put(owed, c, Carry(Owed(c)))
             \* everything this session has received and not fully acknowledged must be retransmitted first (C03)
@@ -221,11 +222,14 @@ Reg(c) == Get(aux.reg, c, "")
 \* a connection was put into the table of online clients: nobody else may be registered under that client id, and
 \* every earlier connection of that id has finished its teardown (C05: closed before the newer one is acknowledged)
 KOf(addr) == CHOOSE k \in DOMAIN conn : conn[k].addr = addr
-\* nobody else is registered under that client id, and every connection of that id which the BROKER ended (displaced,
-\* terminated ...: it was unregistered while its client had not ended it) has finished its teardown
+\* nobody else is registered under that client id, and the socket of every connection of that id which the BROKER ended
+\* (displaced, terminated ...: it was unregistered while its client had not ended it) is closed (its writeLoop has exited:
+\* event exit.write).  The statement demands the network connection to be closed, not the end of the whole teardown: a
+\* third CONNECT may be registered between unregister and the `closed` event of a displaced connection.  The wire-level
+\* form of the same demand is `olderopen` of the connack event (TraceBroker).
 RegOK(c, addr) ==
   /\ Reg(c) = ""
-  /\ \A a \in aux.srvended : (\E k \in DOMAIN conn : conn[k].addr = a /\ conn[k].cid = c) => a \in aux.closedc
+  /\ \A a \in aux.srvended : (\E k \in DOMAIN conn : conn[k].addr = a /\ conn[k].cid = c) => a \in aux.sockc
 
 HookRegister(c, addr, resume, ms) ==
   /\ RegOK(c, addr)
@@ -236,10 +240,10 @@ HookRegister(c, addr, resume, ms) ==
          conn1 == IF old # 0 /\ old # k THEN [conn EXCEPT ![old].st = "down"] ELSE conn
          w1 == IF old # 0 /\ old # k THEN WillAtEnd(Wills, c, old, FALSE, conn[old].expiry, conn[k].t0) ELSE Wills
          w2 == IF resume THEN WillAtResume(w1, c, conn[k].t0, ms) ELSE WillAtSessionEnd(w1, c, conn[k].t0) IN
-     /\ conn' = [conn1 EXCEPT ![k].st = "registered", ![k].resumed = resume]
+     /\ conn' = [conn1 EXCEPT ![k].st = "registered", ![k].resumed = resume, ![k].regseq = aux.nreg + 1]
      /\ sess' = Put(sess, c, [online |-> k, ver |-> conn[k].ver, expireAt |-> 0])
      /\ ctl' = IF old # 0 /\ old # k THEN Put(ctl, old, {}) ELSE ctl
-     /\ aux' = [aux EXCEPT !.wills = w2, !.reg = Put(@, c, addr)]
+     /\ aux' = [aux EXCEPT !.wills = w2, !.reg = Put(@, c, addr), !.nreg = @ + 1]
      /\ IF resume
           THEN /\ owed' = Put(owed, c, Carry(Owed(c)))
                /\ infl' = Put(infl, c, {[e EXCEPT !.rs = TRUE] : e \in Infl(c)})
@@ -289,6 +293,11 @@ HookUnregister(c, addr, ms) ==
 
 HookClosed(addr) ==
   /\ aux' = [aux EXCEPT !.closedc = @ \cup {addr}]
+  /\ UNCHANGED <<cfg, subs, conn, sess, owed, gowed, ctl, ret, unack, infl, last, ctr>>
+
+\* writeLoop of the connection has returned: its deferred function has closed the socket
+HookSockClosed(addr) ==
+  /\ aux' = [aux EXCEPT !.sockc = @ \cup {addr}]
   /\ UNCHANGED <<cfg, subs, conn, sess, owed, gowed, ctl, ret, unack, infl, last, ctr>>
 
 ----------------------------------------------------------------------------
@@ -450,8 +459,11 @@ ClientPublish(k, m) ==
 SrvDisconnect(k, code) ==
   /\ k \in DOMAIN conn
   /\ \/ code \in conn[k].dying
-     \* 0x8E Session taken over: only while / after another connection of the same client id takes over
-     \/ code = 142 /\ \E k2 \in DOMAIN conn : k2 # k /\ conn[k2].cid = conn[k].cid /\ conn[k2].t0 >= conn[k].t0
+     \* 0x8E Session taken over: only while / after another connection of the same client id takes over: one whose
+     \* CONNECT is being processed, or one that was registered after k (a connection whose CONNECT was sent earlier may
+     \* well be registered later)
+     \/ code = 142 /\ \E k2 \in DOMAIN conn : /\ k2 # k /\ conn[k2].cid = conn[k].cid
+                                                /\ (conn[k2].st = "connecting" \/ conn[k2].regseq > conn[k].regseq)
      \* scenarios that make the client misbehave on purpose (malformed packet, keep-alive timeout): any error code
      \/ cfg.anydisc /\ code >= 128
   /\ conn' = [conn EXCEPT ![k].disc = TRUE]
